@@ -42,7 +42,8 @@ CHECKS["C02"] = dict(
          "unsubscribe/disconnect; distinct = distinct case value.",
     assumptions=["a barrier not answered within 30 s is reported as a hang (violation)"],
     legs=[dict(name="sessions", test="^TestSessions$", quick=dict(n=800, procs=4, timeout=300), thorough=dict(n=40000, procs=14, timeout=2400)),
-          dict(name="write-failure", test="^TestTransientWriteFailure$", quick=dict(n=600, procs=2, timeout=300), thorough=dict(n=60000, procs=8, timeout=2400))],
+          dict(name="write-failure", test="^TestTransientWriteFailure$", quick=dict(n=600, procs=2, timeout=300), thorough=dict(n=60000, procs=8, timeout=2400)),
+          dict(name="slow-subscriber", test="^TestSlowSubscriber$", quick=dict(n=6, procs=3, batch=2, timeout=900), thorough=dict(n=48, procs=8, batch=6, timeout=3000))],
 )
 
 CHECKS["C16"] = dict(
